@@ -63,6 +63,8 @@ def acceptExpr (funcs : List Func) (tab : List (String Ã— Ty)) : Nat â†’ Expr â†
       match acceptExpr funcs tab f recv with
       | some c => some c
       | none => firstErr (acceptExpr funcs tab f) args
+    | .errorE => none
+    | .item e _ => acceptExpr funcs tab f e
 
 def chk (funcs : List Func) (t : SymTab) (e : Expr) : Except Nat Unit :=
   match acceptExpr funcs t.cur 200 e with
